@@ -203,6 +203,8 @@ FnApply(st, name, args, kw) ==
                                  ELSE RErr(s1, "TypeError")
          [] name = "is_none"  -> ROk(s1, VBool(x = VNone))
          [] name = "is_int"   -> ROk(s1, VBool(IsNum(x)))
+         [] name = "Tagged"   -> Build(s1, "obj", << <<VStr("x"), x>> >>)   \* a CLASS (which itself defines glomit): a callable
+                                                                            \* like any other, the new instance is the result
          [] name = "ret_None" -> ROk(s1, VNone)
          [] name = "ret_SKIP" -> ROk(s1, SKIP)
          [] name = "ret_STOP" -> ROk(s1, STOP)
